@@ -111,6 +111,14 @@ def make_reject(target):
 def make_default_param_filter(answer):
     """a one-argument filter (the form find_links takes) written with a defaulted second parameter - the closure-by-default idiom"""
     return lambda e, _answer=answer: _answer
+class RejectUnhashable:
+    """a filter object rejecting one vertex, of a class that defines __eq__ without __hash__ (instances cannot be dictionary keys)"""
+    def __init__(self, target):
+        self.target = target
+    def __call__(self, e, v):
+        return v is not self.target
+    def __eq__(self, other):
+        return isinstance(other, RejectUnhashable) and other.target is self.target
 class UnhashableCallable:
     """a callable user object that defines __eq__ without __hash__ (so it cannot be a dictionary key)"""
     def __init__(self, answer):
